@@ -70,7 +70,7 @@ fn sorted_tick(mut t: TickOut) -> TickOut {
     t
 }
 
-pub const C36_PROGRAMS: [&str; 11] = [
+pub const C36_PROGRAMS: [&str; 12] = [
     "ordered_batch",
     "unordered_batch_observed",
     "keyed_batch",
@@ -80,6 +80,7 @@ pub const C36_PROGRAMS: [&str; 11] = [
     "toplevel_fold",
     "two_input_tick",
     "batch_and_snapshot",
+    "batch_and_hooked_fold_snapshot",
     "cluster_batch",
     "cluster_to_process",
 ];
